@@ -206,3 +206,12 @@ REG.bounded_check("bounded#template_families_render_like_their_hand_flattened_tw
 
 NOT_COVERED = ["clause 2 of the property (composition of extends/include/block with components) is NOT decided deductively; it is covered only by the BOUNDED stand-in bounded#template_families_render_like_their_hand_flattened_twin (240 families x 2 modes, never counted as proved)",
                "AST equality is against the Django installed in this image (version and sha256 in the evidence)"]
+
+
+def _bounded_stock(tier, repo):
+    from harness.bounded_stock import run
+    return run(repo)
+
+
+REG.bounded_check("bounded#stock_templates_render_identically_with_and_without_the_library", P, _bounded_stock,
+                  note="clause 1 beyond the two patched methods: 284 stock templates x 3 contexts are rendered in two processes (stock Django / Django with django_components installed) and output, error type and the Context left behind must be identical for every template stock Django accepts; the multi-line-tag templates are the region of the known finding F-C10a")
